@@ -211,6 +211,25 @@ def build_case(rnd, model_source=None):
     return model_source(rnd)
 
 
+def boundary_location_family():
+    """Always part of the run: every field kind at sizes and offsets on the edges of what the passes
+    expect (negative, zero, one too many, huge), with the field used again elsewhere so that later
+    passes see it.  ~150 small programs."""
+    kinds = [("UInt", "x == 3", "x + 1"), ("Int", "x == 3", "x + 1"), ("Bcd", "x == 3", "x + 1"), ("Flag", "x", "x ? 1 : 2"), ("Float", "a == 3", "a + 1"), ("Ee", "x == Ee.AA", "x == Ee.AA ? 1 : 2"), ("Sub", "x.q == 3", "x.q + 1"), ("UInt:8[]", "a == 3", "a + 1"), ("UInt:8[2]", "a == 3", "a + 1"), ("Bi", "x.lo == 3", "x.lo + 1")]
+    edges = ["-1", "0-1", "1-2", "0", "9", "65", "-9223372036854775808", "18446744073709551615", "18446744073709551616", "a - 1", "a - 300", "0 * a - 1"]
+    out = []
+    head = '[$default byte_order: "LittleEndian"]\nenum Ee:\n  AA = 1\nstruct Sub:\n  0 [+1]  UInt  q\nbits Bi:\n  0 [+8]  UInt  lo\n'
+    for kind, cond, val in kinds:
+        for e in edges:
+            for where in ("size", "start"):
+                loc = ("1 [+%s]" % e) if where == "size" else ("%s [+1]" % e)
+                body = "struct Foo:\n  0 [+1]  UInt  a\n  %s  %s  x\n  if %s:\n    20 [+1]  UInt  y\n  let z = %s\n  x [+1]  UInt  w\n" % (loc, kind, cond, val)
+                out.append({"m.emb": head + body})
+    for e in edges:
+        out.append({"m.emb": head + "bits Foo:\n  0 [+4]  UInt  a\n  4 [+%s]  UInt  x\n  if x == 3:\n    20 [+1]  Flag  y\n  let z = x + 1\n" % e})
+    return out
+
+
 def shard(idx, seed, n, cli_n, tier):
     stats = vlib.Stats()
     try:
@@ -228,6 +247,10 @@ def shard(idx, seed, n, cli_n, tier):
         evaluate(stats, files, main, klass, cli=count[0] <= cli_n)
 
     vlib.hyp_run(st.integers(0, 2**63), body, n, seed=seed * 1009 + idx)
+    fam = boundary_location_family()
+    for i, files in enumerate(fam):
+        if i % 16 == idx:
+            evaluate(stats, files, "m.emb", "boundary-location-family")
     return stats
 
 
